@@ -17,7 +17,7 @@
     stated for [inv] objects cover objects modified through their attributes too. *)
 From Coq Require Import String.
 From Verif Require Import Lib.Base Lib.Dec Version.Parse Version.ParseSpec Version.ParseProofs
-  Version.Compare Version.Dpkg Version.CompareCheck Version.CompareProofs.
+  Version.Compare Version.Dpkg Version.CompareCheck Version.CompareProofs Version.CompareCheckProofs.
 Local Open Scope Z_scope.
 
 (** 1. py_compare_is_dpkg.  For all valid version strings a and b: both objects are
@@ -120,6 +120,39 @@ Theorem C03_model_triple_holds :
                          (py_version_compare (dec a) (dec c))) = true.
 Proof. exact model_triple_holds. Qed.
 
+(** ... and on every pair of histories: two objects made from any strings [a], [b], each
+    taken through any sequence of attribute assignments (accepted and rejected ones,
+    any names, None or any string).  The model's output is taken as the observation
+    ([hist_obs_of]); [sa], [sb] are literals spelling the two strings the model displays
+    ([spells] — the observation record holds literals, the model code-point lists). *)
+Theorem C03_model_hist_holds :
+  forall a aops b bops sa sb,
+    let m := model_hist (dec a) (lit_ops aops) (dec b) (lit_ops bops) in
+    spells m sa sb = true ->
+    holds (CHist a aops b bops (hist_obs_of m sa sb)) = true.
+Proof. exact model_hist_holds. Qed.
+
+(** what that rests on: every object reached through a history is live ([inv], by C14),
+    and a live object IS the fresh object made from its own string — so it compares equal
+    to it and has its hash key *)
+Theorem C03_history_keeps_live :
+  forall st ops, inv st = true -> inv (final_state st (run_assigns st ops)) = true.
+Proof. exact final_state_inv. Qed.
+
+Theorem C03_live_equals_fresh :
+  forall v, inv v = true ->
+    version_new (VStr (version_str v)) = Ok v /\ fresh_cmp v = Ok (true, true).
+Proof. intros v H. split; [exact (fresh_of_inv v H)|exact (fresh_cmp_inv v H)]. Qed.
+
+(** 4b. The bridge to the run-time check.  For EVERY case of Version/CompareCheck.v (pairs,
+    triples, histories, the leaves; any strings, any assignment sequences, any
+    observation): if the implementation's observation equals the model's output ([agree],
+    evaluated on each generated case), then the property as [holds] judges it on that
+    observation is true.  So a [holds] failure cannot occur without an [agree] failure. *)
+Theorem C03_agree_implies_holds :
+  forall c, agree c = true -> holds c = true.
+Proof. exact agree_implies_holds. Qed.
+
 (** 5. The machinery behind 1-3, stated on its own: on every pair of strings (any code
        points) [_version_cmp_part] is the order [keys_cmp] on the keys; on strings of
        non-NUL characters whose Unicode digit class is C's, dpkg's [verrevcmp]
@@ -159,6 +192,30 @@ Example C03_nonvacuous_nice :
   /\ verrevcmp (dec "1.0~rc1") (dec "1.0") = Ok (-1).
 Proof. vm_compute. repeat split. Qed.
 
+(** a history case: "1.0-1" with the epoch set, a refused upstream_version, the revision
+    removed; "2:1.00" with an ordinary attribute and a refused full_version.  Both end up
+    displaying differently spelled equal versions: the model's output spelled by the literals,
+    [agree] and [holds] true, and the hypotheses of the two history theorems met. *)
+Example C03_nonvacuous_hist :
+  let aops := [("epoch", Some "2"); ("upstream_version", Some "a b"); ("debian_revision", None)]%string in
+  let bops := [("foo", Some "x"); ("full_version", Some "1:")]%string in
+  let m := model_hist (dec "1.0-1") (lit_ops aops) (dec "2:1.00") (lit_ops bops) in
+  spells m "2:1.0" "2:1.00" = true
+  /\ hist_obs_of m "2:1.0" "2:1.00"
+     = Ok (mkH [None; Some ValueError; None] [None; Some ValueError] "2:1.0" "2:1.00"
+               (mkOps false true true false true false) true (true, true) (true, true))
+  /\ agree (CHist "1.0-1" aops "2:1.00" bops (hist_obs_of m "2:1.0" "2:1.00")) = true
+  /\ holds (CHist "1.0-1" aops "2:1.00" bops (hist_obs_of m "2:1.0" "2:1.00")) = true
+  /\ holds (CHist "1.0-1" aops "2:1.00" bops
+       (Ok (mkH [None; Some ValueError; None] [None; Some ValueError] "2:1.0" "2:1.00"
+                (mkOps false true true false true false) false (true, true) (true, true)))) = false
+  /\ match version_new (VStr (dec "1.0-1")) with
+     | Ok st => inv st = true
+                /\ version_str (final_state st (run_assigns st (lit_ops aops))) = dec "2:1.0"
+     | Err _ => False
+     end.
+Proof. vm_compute. repeat split. Qed.
+
 Print Assumptions C03_py_compare_is_dpkg.
 Print Assumptions C03_py_compare_is_dpkg_obj.
 Print Assumptions C03_compare_total.
@@ -173,5 +230,9 @@ Print Assumptions C03_equal_iff_same_key.
 Print Assumptions C03_hash_respects_eq.
 Print Assumptions C03_model_pair_holds.
 Print Assumptions C03_model_triple_holds.
+Print Assumptions C03_model_hist_holds.
+Print Assumptions C03_history_keeps_live.
+Print Assumptions C03_live_equals_fresh.
+Print Assumptions C03_agree_implies_holds.
 Print Assumptions C03_cmp_part_is_key_order.
 Print Assumptions C03_verrevcmp_is_key_order.
